@@ -85,6 +85,9 @@ pub fn run(opts: &Opts) -> i32 {
     // (2) generated ZCore programs: acceptance + behaviour vs the Lean model (checker + erasure +
     // machine), the real linked program on the Lean machine, and typed mutants
     generated(opts, &mut sink);
+    // (3) type equality under binders
+    let mut rng = crate::common::Rng::new(opts.seed ^ 0x1ab);
+    crate::lub::run(opts, &mut sink, &mut rng);
     sink.finish();
     0
 }
